@@ -15,7 +15,7 @@ TrajS(r1, r2) == <<Pose(r1, <<0, 0, 0>>), Pose(r2, <<2, 0, 0>>), Pose(RID, <<2, 
 Init == \/ \E m \in Modes, u \in {"m", "mm", "cm", "km"}, tr \in {TrajA, TrajB}, s2 \in {0, 1, 2} :
              c = [fam |-> "traj", mode |-> m, unit |-> u, traj |-> tr, other |-> OtherOf(tr), scale2 |-> s2]
         \/ \E u \in {"m", "mm"}, r1 \in SingleAxis, r2 \in {RID, 2, 10}, st \in {<<>>, <<0, 1, 3, 4>>, <<10, 12, 13, 17>>}, s0 \in {0, 3, 10} :
-             /\ (st = <<>> => s0 = 0)
+             /\ (st = <<>> => s0 \in {0, 3})          \* a start time given for a path without timestamps: still plotted against the pose index
              /\ c = [fam |-> "series", unit |-> u, traj |-> TrajS(r1, r2), stamps |-> st, start |-> s0]
         \/ \E x \in {<<0, 1, 2, 3>>, <<5, 7, 8, 20>>}, y \in {<<3, 1, 4, 1>>, <<0, 0, 2, 9>>} : c = [fam |-> "err", x |-> x, y |-> y]
 Next == UNCHANGED c
